@@ -654,6 +654,62 @@ def make_meta(prog, chown_permitted=True):
     return mk_
 
 
+# legal Unix names that a reader might mishandle: control characters, bytes below '/', DEL, C1 controls, multi-byte, dots
+ODD_NAMES = ['\x01', '\t', 'line\nbreak', '\x1f', ' ', '-', '~', '\x7f', '\x80', '\u009f', '\u00e9', '\U00010000', 'a.b', '..x', '.hidden', 'x..']
+
+
+def make_names(prog):
+    """C01: entries whose names are unusual but legal restore like any other (name chosen by the solver from ODD_NAMES)."""
+    def mk_():
+        res = {'bad': [], 'samples': []}
+
+        def h(ex):
+            st, ar = A.new_archive(ex)
+            fs = setup_fs(ex, 'absent', True)
+            ni = ex.concretize(ex.fresh_int('name', 0, len(ODD_NAMES) - 1), 0, len(ODD_NAMES) - 1, 'file name')
+            name = ODD_NAMES[ni]
+            as_dir = ex.branch(ex.fresh_bool('as_dir'), 'the odd name is a directory holding a file?')
+            entries = [E('/', 'Dir', mode=0o755, sec=50, nanos=1)]
+            if as_dir:
+                entries += [E('/' + name, 'Dir', mode=0o755, sec=3, nanos=0), E('/' + name + '/f', 'File', size=ex.fresh_int('fsize', 1, 1 << 20), cls=1, mode=0o644, sec=4, nanos=0)]
+            else:
+                entries += [E('/' + name, 'File', size=ex.fresh_int('fsize', 1, 1 << 20), cls=1, mode=0o644, sec=4, nanos=0)]
+            put_band(ex, st, 0, entries)
+            ex.env['bands'] = [(0, True, entries)]
+            st.mode = 'run'
+            before = {p: n.state() for p, n in fs.nodes.items()}
+            r = run_restore(ex, ar, DEST, restore_options(ex))
+            problems = []
+            if r.variant != 0:
+                problems.append('restore failed: %s' % variant_name(ex, r.fields[0]))
+            errs = ex.env['monitor'].errors
+            if errs:
+                problems.append('restore reported errors: %s' % [variant_name(ex, e) for e in errs][:3])
+            check_restored(ex, fs, entries, DEST, problems, True)
+            outside_unchanged(fs, before, DEST, problems)
+            return problems, fs, name
+
+        def on_path(ex, out):
+            if out[0] == 'panic':
+                r0, m = ex.E.check()
+                res['bad'].append({'kind': 'panic', 'msg': str(out[1])[:200], 'where': out[1].where, 'model': B.model_values(m)})
+                return
+            if out[0] != 'ok':
+                return
+            problems, fs, name = out[1]
+            if problems:
+                r0, m = ex.E.check()
+                res['bad'].append({'kind': 'problem', 'problems': problems[:5], 'model': B.model_values(m), 'name': name,
+                                   'syscalls': fs.log[-25:], 'scenario': {'bands': bands_json(m, ex.env['bands']), 'restore_band': 0,
+                                                                          'chown_permitted': True}})
+            elif len(res['samples']) < 2:
+                r0, m = ex.E.check()
+                res['samples'].append({'name': name, 'result': 'Ok', 'errors': [], 'syscalls': fs.log[-6:],
+                                       'scenario': {'bands': bands_json(m, ex.env['bands']), 'restore_band': 0}})
+        return h, on_path, res
+    return mk_
+
+
 TARGETS = ['../out', '/abs', '../out/sentinel', '/abs/sentinel', 'd', '..', '.']
 
 
